@@ -293,12 +293,13 @@ func backward[K nodeKey, V any](root nodeRef, restore func(unsafe.Pointer) (K, V
 
 func topK[K nodeKey, V any](t Tree[K, V], k uint) iter.Seq2[K, V] {
 	return func(yield func(K, V) bool) {
-		if k == 0 {
+		remaining := k
+		if remaining == 0 {
 			return
 		}
 
 		for key, val := range t.Backward() {
-			if k == 0 {
+			if remaining == 0 {
 				return
 			}
 
@@ -306,19 +307,20 @@ func topK[K nodeKey, V any](t Tree[K, V], k uint) iter.Seq2[K, V] {
 				break
 			}
 
-			k--
+			remaining--
 		}
 	}
 }
 
 func bottomK[K nodeKey, V any](t Tree[K, V], k uint) iter.Seq2[K, V] {
 	return func(yield func(K, V) bool) {
-		if k == 0 {
+		remaining := k
+		if remaining == 0 {
 			return
 		}
 
 		for key, val := range t.All() {
-			if k == 0 {
+			if remaining == 0 {
 				return
 			}
 
@@ -326,7 +328,7 @@ func bottomK[K nodeKey, V any](t Tree[K, V], k uint) iter.Seq2[K, V] {
 				break
 			}
 
-			k--
+			remaining--
 		}
 	}
 }
